@@ -128,6 +128,16 @@ Proof.
 Qed.
 Print Assumptions C06_string2_domain.
 
+(* DATE_AND_TIME.encode(time, date) (two positional arguments) is the same as encode((time, date)),
+   for every time and date — date 0 included — and so round-trips as well *)
+Theorem C06_datetime_call_forms :
+  (forall t d, encode_args TDateTime [VInt t; VInt d] = encode TDateTime (VTuple [VInt t; VInt d]))
+  /\ (forall t d rest, in_urange 4 t = true -> in_urange 2 d = true ->
+        exists bs, encode_args TDateTime [VInt t; VInt d] = Ok bs
+                   /\ decode TDateTime (bs ++ rest) = Ok (VTuple [VInt t; VInt d], rest)).
+Proof. split; [exact datetime_call_forms|exact datetime_positional_roundtrip]. Qed.
+Print Assumptions C06_datetime_call_forms.
+
 (* REAL "to IEEE precision": the normal form of an in-domain REAL value is Flocq's binary32
    rounding (to nearest, ties to even) of the double, embedded back exactly.  This theorem alone
    depends on the stdlib real-number axioms (through Flocq). *)
